@@ -24,6 +24,10 @@ def submit (s : St) (t : TxRec) : St × String :=
   let (cls, s') := admitTx s id t
   (s', s!"id={id} admit={cls}")
 
+/-- any gas price other than the chain's fixed one is refused by the basic check -/
+def pricedOf (toks : List String) : Option String :=
+  if argI toks "gpd" 0 != 0 then some "other:illegal_gasLimit_or_gasPrice" else none
+
 def brokenOf (toks : List String) : Option String :=
   match arg? toks "tamper" with
   | some "outpk" | some "pseudo" | some "fee" => some "commit"
@@ -43,7 +47,14 @@ def step (s : Option St) (toks : List String) : Option St × String :=
       | "xfer" =>
         let amount := argI toks "amount" 1
         let (s', a) := submit s { kind := .xfer, from_ := (argI toks "from" 0).toNat, to := (argI toks "to" 1).toNat, amount := amount,
-                                  nonce := (argI toks "nonce" 0).toNat, gas := calGas amount }
+                                  nonce := (argI toks "nonce" 0).toNat, gas := calGas amount, broken := pricedOf toks }
+        (some s', a)
+      | "call" =>
+        -- a contract call moves no value: the sender pays the metered gas (an input: `used=`, from the dry run) and its nonce
+        -- advances whether the call succeeds or reverts; recorded as a self-transfer of 0; `spends` keeps the receipt status
+        let from_ := (argI toks "from" 0).toNat
+        let (s', a) := submit s { kind := .xfer, from_ := from_, to := from_, amount := 0, nonce := (argI toks "nonce" 0).toNat,
+                                  gas := argI toks "used" 1000000, spends := (argI toks "st" 1).toNat, broken := pricedOf toks }
         (some s', a)
       | "xfertok" =>
         let (s', a) := submit s { kind := .xfertok, from_ := (argI toks "from" 0).toNat, to := (argI toks "to" 1).toNat, amount := argI toks "amount" 1,
@@ -63,6 +74,13 @@ def step (s : Option St) (toks : List String) : Option St × String :=
           let declared := match argInt? toks "claim" with | some c => c | none => o.amount
           let amount := argI toks "amount" 1
           let ufee := feeOfGas utxoGas
+          -- an account-side amount of 2^64 units or more cannot be turned into a commitment scalar: the builder refuses
+          if op == "ua" && argI toks "hi" (-1) ≥ 64 then (some s, "build=money") else
+          let amount := if op == "ua" && argI toks "all" 0 == 1 then
+              let a0 := declared - feeOfGas (calGas declared)
+              if a0 > 0 then declared - feeOfGas (calGas a0) else a0
+            else amount
+          if op == "ua" && argI toks "all" 0 == 1 && amount ≤ 0 then (some s, "build=funds") else
           if op == "uu" then
             let change := declared - amount - ufee
             if change < 0 then (some s, "build=funds") else
@@ -104,7 +122,7 @@ def step (s : Option St) (toks : List String) : Option St × String :=
         let ids := s.blocks.getD (h - 1) []
         let recs := ids.filterMap (fun i => s.txs[i]?)
         let gas := ",".intercalate (recs.map (fun t => toString t.gas))
-        let st := ",".intercalate (recs.map (fun _ => "1"))
+        let st := ",".intercalate (recs.map (fun t => if t.kind == .xfer && t.from_ == t.to && t.amount == 0 then toString t.spends else "1"))
         if arg? toks "gas" == some gas && arg? toks "st" == some st then (some s, "ok")
         else (some s, s!"stale got:h={h} gas={arg? toks "gas"} st={arg? toks "st"} model gas={gas} st={st}")
       | "restart" =>
